@@ -159,3 +159,5 @@ def run(F, rep, tier):
         miss2 = sorted(vk - hk)
         rep.check(not miss2, "C11-R2", "impl_horzcat_fxn" if not miss2 else "impl_horzcat_fxn:missing:%s" % ",".join(miss2),
                   "impl_horzcat_fxn has no branch for kind(s) %s that impl_vertcat_fxn handles" % miss2, "src/interpreter/src/stdlib/horzcat.rs")
+    from rules.loopshape import c11_offset_dimension
+    c11_offset_dimension(F, rep)
